@@ -46,6 +46,8 @@ Proof.
   - destruct (pump s); reflexivity.
   - destruct f; cbn; [rewrite cap_finish_event|]; reflexivity.
 Qed.
+Lemma cap_recv_stopped s : cap (recv_stopped s) = cap s.
+Proof. unfold recv_stopped. destruct (queue s); rewrite cap_finish_event; reflexivity. Qed.
 Lemma cap_close_rest s : cap (close_rest s) = cap s.
 Proof. unfold close_rest. destruct (is_closed (set_ctl CIdle s)); reflexivity. Qed.
 Lemma cap_cancel_pump s : cap (cancel_pump s) = cap s.
@@ -60,7 +62,7 @@ Proof.
          | H : (if ?x then _ else _) = Some _ |- _ => destruct x eqn:?; try discriminate
          end; inversion H; subst; clear H; cbn;
   rewrite ?cap_logr, ?cap_put_phase, ?cap_note_disc, ?cap_pump_loop, ?cap_finish_event,
-    ?cap_recv_loop, ?cap_close_rest; cbn; rewrite ?cap_cancel_pump; try reflexivity.
+    ?cap_recv_loop, ?cap_recv_stopped, ?cap_close_rest; cbn; rewrite ?cap_cancel_pump; try reflexivity.
   all: try (destruct fin; reflexivity).
   unfold send_op. cap_tac.
 Qed.
@@ -208,6 +210,8 @@ Proof.
   - destruct (pump s); reflexivity.
   - destruct f; cbn; [rewrite pt_finish_event|]; reflexivity.
 Qed.
+Lemma pt_recv_stopped s : ptask (recv_stopped s) = ptask s.
+Proof. unfold recv_stopped. destruct (queue s); rewrite pt_finish_event; reflexivity. Qed.
 Lemma pt_close_rest s : ptask (close_rest s) = ptask s.
 Proof. unfold close_rest. destruct (is_closed (set_ctl CIdle s)); reflexivity. Qed.
 Lemma pt_cancel_pump s : ptask (cancel_pump s) = ptask s.
@@ -223,7 +227,7 @@ Proof.
          | H : (if ?x then _ else _) = Some _ |- _ => destruct x eqn:?; try discriminate
          end; inversion H; subst; clear H; cbn;
   rewrite ?pt_put_phase, ?pt_note_disc, ?pt_pump_loop, ?pt_finish_event,
-    ?pt_recv_loop, ?pt_close_rest; cbn; rewrite ?pt_cancel_pump; try assumption; try reflexivity.
+    ?pt_recv_loop, ?pt_recv_stopped, ?pt_close_rest; cbn; rewrite ?pt_cancel_pump; try assumption; try reflexivity.
   all: try (destruct fin; assumption).
   unfold send_op. cap_tac; assumption.
 Qed.
